@@ -201,3 +201,117 @@ def prepare_stub_world(wd, values=None, cap=60000):
     wd.stub_rng = sub_rng(wd.seed, "stub-payoffs")
     wd.stub_cap = cap
     wd.stub_max_level_seen = 0
+
+
+class ScriptedPathProcess:
+    """standard-engine process handing out explicit multi-point paths (world list ``stub_paths``): sample i has
+    diffusion component ``stub_paths[i][0]`` and pure-jump component ``stub_paths[i][1]`` on the process's times"""
+
+    def __init__(self, base, times, log, df_value=1.0):
+        self.base = float(base)
+        self._times = np.asarray(times, dtype=float)
+        self.model = StubModel(df_value, log=log)
+        self.process_representation = self.model.process_representation
+
+    def dimension(self):
+        return 1
+
+    def initialisation(self, product, max_step_epsilon=None):
+        pass
+
+    def pre_computation(self, mc_paths, product):
+        pass
+
+    def deterministic_path(self, times):
+        return self.base + 0.0 * np.asarray(times, dtype=float)
+
+    def df(self, t):
+        return self.model.df(t)
+
+    def one_simulation_cost(self, product):
+        return 1.0
+
+    def reset_one_simulation_cost(self):
+        pass
+
+    def simulate_one_path(self):
+        wd = _world()
+        serial = wd.stub_serial
+        wd.stub_serial += 1
+        if serial >= len(wd.stub_paths):
+            raise HarnessError("scripted path process exhausted")
+        d, j = wd.stub_paths[serial]
+        wd.stub_ledger.append({"serial": serial, "level": None, "ctx": wd.current.name})
+        return TaggedPath(self._times, np.array(d, dtype=float), np.array(j, dtype=float), serial)
+
+
+class ScriptedPathCoupling:
+    """multilevel stand-in handing out explicit multi-point (fine, coarse) path pairs: the coarse path of sample i is
+    sample i's path, the fine path is the next entry of the list (so that fine and coarse differ and may cross a
+    barrier independently)"""
+
+    def __init__(self, base, times, log, df_value=1.0):
+        self.base = float(base)
+        self._times = np.asarray(times, dtype=float)
+        self.model = StubModel(df_value, log=log)
+        self.fine_process = _FineProcessPath(self)
+        self.level = 0
+
+    def initialisation(self, product, max_step_epsilon=None):
+        pass
+
+    def pre_computation(self, mc_paths, product):
+        pass
+
+    def reset_one_simulation_cost(self):
+        pass
+
+    def one_simulation_cost(self, product):
+        return 1.0
+
+    def next_level(self, mc_paths, path_managers, product, max_step_epsilon=None):
+        self.level += 1
+        if path_managers is not None:
+            base = self.base
+            pm = copy.deepcopy(path_managers[-1])
+            pm.update(self.fine_process.process_representation)
+
+            def coupling_deterministic_path(times_input):
+                t = np.asarray(times_input, dtype=float)
+                return np.array([base + 0.0 * t, base + 0.0 * t])
+
+            pm.deterministic_path = coupling_deterministic_path
+            path_managers.append(pm)
+
+    def _next(self):
+        wd = _world()
+        serial = wd.stub_serial
+        wd.stub_serial += 1
+        if serial >= len(wd.stub_paths):
+            raise HarnessError("scripted path coupling exhausted")
+        return serial, wd.stub_paths[serial]
+
+    def simulate_one_path(self):
+        wd = _world()
+        serial, (d, j) = self._next()
+        wd.stub_ledger.append({"serial": serial, "level": 0, "ctx": wd.current.name})
+        return TaggedPath(self._times, np.array(d, dtype=float), np.array(j, dtype=float), serial)
+
+    def simulate_one_path_with_coupling(self):
+        wd = _world()
+        s1, (d1, j1) = self._next()
+        s2, (d2, j2) = self._next()
+        wd.stub_ledger.append({"serial": s1, "level": self.level, "ctx": wd.current.name})
+        return TaggedPath(self._times, np.array([d1, d2], dtype=float), np.array([j1, j2], dtype=float), (s1, s2))
+
+
+class _FineProcessPath:
+    def __init__(self, owner):
+        self.owner = owner
+        self.process_representation = owner.model.process_representation
+
+    def deterministic_path(self, times):
+        return self.owner.base + 0.0 * np.asarray(times, dtype=float)
+
+    def df(self, t):
+        return self.owner.model.df(t)
